@@ -44,8 +44,8 @@ def effects_of(func_node, g=None, rd=None, keep=()):
     e = Effect()
     e.kind, e.node, e.stmt, e.target, e.value, e.attr = kind, n, st, target, value, attr
     e.target_text = norm(target)
-    e.expanded = norm(rd.expand(n, target, keep=keep)[0])
-    e.root = root_name(rd.expand(n, target, keep=keep)[0])
+    e.expanded = norm(rd.expand(n, target, keep=keep, aliases=True)[0])
+    e.root = root_name(rd.expand(n, target, keep=keep, aliases=True)[0])
     out.append(e)
 
   for n in g.nodes:
